@@ -1826,6 +1826,8 @@ class Ev:
             return None
         if k == "lit" and pat.get("lk") == "str" and is_lit(val) and isinstance(val.tag[1], str):
             return val.tag[1] == pat["v"]
+        if k == "lit" and str(pat.get("v")) in ("true", "false") and isinstance(val, Sym) and val.tag[:1] == ("bool",) and len(val.tag) == 2:
+            return val.tag[1] == str(pat["v"])
         if k == "lit":
             if isinstance(val, Poly) and val.const_value() is not None and pat.get("lk") in ("int", "float"):
                 c = F(str(pat["v"]).replace("_", ""))
@@ -1837,6 +1839,8 @@ class Ev:
         if scrut is None:
             scrut = self.eval(e["e"], env, depth)
             cases = split_early(scrut)
+            if cases is None and isinstance(scrut, Alt) and all(isinstance(l_, EarlyRet) or (isinstance(l_, Sym) and l_.tag[:1] == ("ctor",)) for _, l_ in flat_alts(scrut)):
+                cases = flat_alts(scrut)          # a scrutinee that is one of several known constructors (a helper's guarded results): the arms decide per alternative
             if cases is not None:
                 # `match (f(a)?, g(b)?) { .. }`: on the alternatives where a `?` returns the function is left; the arms see the remaining ones
                 alts = []
